@@ -92,6 +92,8 @@ class FetchUnused(FetchStream):
             {"master": "m", "sources": src, "diff": d, "track": True},
             {"master": "m", "sources": src, "diff": d, "track": False},
             {"master": "m", "sources": src, "diff": d, "track": True},
+            # the same sources spliced into a scope the way an include inside a scope does (model only)
+            {"master": "m", "sources": [["w", i] for i in range(len(case["s"]))], "diff": d, "track": True},
         ]
 
     def corpus(self):
@@ -126,9 +128,9 @@ class FetchUnused(FetchStream):
         return True
 
     def prop(self, case, obs):
-        if not isinstance(obs, list) or len(obs) != 3 or not isinstance(obs[0], list):
+        if not isinstance(obs, list) or len(obs) < 3 or not isinstance(obs[0], list):
             return None
-        o0, o1, o2 = obs
+        o0, o1, o2 = obs[:3]
         # same-tree
         if (o0[0], o0[1]) != (o1[0], o1[1]) or (o0[0] == "err" and o0 != o1):
             return "same-tree: tracking on gives %s, tracking off %s" % (json.dumps(o0)[:200], json.dumps(o1)[:200])
